@@ -7,7 +7,7 @@ package main
 
 const c04NeutralConcat = `(* Gen/C04Concat.v — translator tie UNAVAILABLE: tools/go2v (extractor "c04concat") did not recognise the shape of the
    source; this is the frozen translation of the source the extractor was written for. *)
-From Eino Require Import Base.Util Model.Paradigm Model.StreamOps Model.StreamGenLib.
+From Eino Require Import Base.Util Model.Paradigm Model.StreamOps Model.C04GenLib.
 
 Definition tie_available : bool := false.
 
@@ -32,7 +32,7 @@ Definition concatStreamReader {X : Type} (concat_items : list X -> res X) (sr : 
 
 const c04NeutralConv = `(* Gen/C04Conv.v — translator tie UNAVAILABLE: tools/go2v (extractor "c04conv") did not recognise the shape of the
    source; this is the frozen translation of the source the extractor was written for. *)
-From Eino Require Import Base.Util Model.Paradigm Model.StreamOps Model.StreamGenLib.
+From Eino Require Import Base.Util Model.Paradigm Model.StreamOps Model.C04GenLib.
 
 Definition tie_available : bool := false.
 
@@ -85,7 +85,7 @@ Definition valueChecker (has_ty : val -> bool) (v : val) : res val :=
 
 const c04NeutralHandle = `(* Gen/C04Handle.v — translator tie UNAVAILABLE: tools/go2v (extractor "c04handle") did not recognise the shape of the
    source; this is the frozen translation of the source the extractor was written for. *)
-From Eino Require Import Base.Util Model.Paradigm Model.StreamOps Model.StreamGenLib.
+From Eino Require Import Base.Util Model.Paradigm Model.StreamOps Model.C04GenLib.
 
 Definition tie_available : bool := false.
 
@@ -150,7 +150,7 @@ Definition preBranch_handle (nil_any : gval) (h : list (N * list (list hpair))) 
 
 const c04NeutralKeys = `(* Gen/C04Keys.v — translator tie UNAVAILABLE: tools/go2v (extractor "c04keys") did not recognise the shape of the
    source; this is the frozen translation of the source the extractor was written for. *)
-From Eino Require Import Base.Util Model.Paradigm Model.StreamOps Model.StreamGenLib.
+From Eino Require Import Base.Util Model.Paradigm Model.StreamOps Model.C04GenLib.
 
 Definition tie_available : bool := false.
 
@@ -205,7 +205,7 @@ Definition wrapper_order : list string := ["outputKey"%string; "inputKey"%string
 
 const c04NeutralCopy = `(* Gen/C04Copy.v — translator tie UNAVAILABLE: tools/go2v (extractor "c04copy") did not recognise the shape of the
    source; this is the frozen translation of the source the extractor was written for. *)
-From Eino Require Import Base.Util Model.Paradigm Model.StreamOps Model.StreamGenLib.
+From Eino Require Import Base.Util Model.Paradigm Model.StreamOps Model.C04GenLib.
 
 Definition tie_available : bool := false.
 
@@ -220,4 +220,28 @@ Definition copyItem (reader_copy : nat -> stream val -> list (stream val)) (item
  | None => do ret_ <- res_mapM (fun i_ => Ok item) (seq 0 n);
  Ok ret_
  end)).
+`
+
+const c04NeutralMerge = `(* Gen/C04Merge.v — translator tie UNAVAILABLE: tools/go2v (extractor "c04merge") did not recognise the shape of the
+   source; this is the frozen translation of the source the extractor was written for. *)
+From Eino Require Import Base.Util Model.Paradigm Model.StreamOps Model.C04GenLib.
+
+Definition tie_available : bool := false.
+
+Definition mergeMap (vs : list val) : res val :=
+ do x1 <- go_idx vs 0; let typ_ := (is_map x1) in
+ do m2 <- make_map typ_; let merged_ := m2 in
+ do merged_ <- fold_res (fun merged_ v_ =>
+ (if (negb (Bool.eqb (is_map v_) typ_))
+ then Err e_type
+ else do m3 <- as_map v_; let range4 := (go_map_range m3) in
+ do merged_ <- fold_res (fun merged_ it5 =>
+ let key_ := (fst it5) in
+ let val_ := (snd it5) in
+ (if (hd_has key_ merged_)
+ then Err e_dupkey
+ else let merged_ := (go_map_set key_ val_ merged_) in
+ Ok merged_)) range4 merged_;
+ Ok merged_)) vs merged_;
+ Ok (VM merged_).
 `
